@@ -5,10 +5,11 @@
 set -u
 cmd=$1; id=$2
 case $cmd in
-confirm|confirm2|confirm3)
+confirm|confirm2|confirm3|confirm4)
   wt=/tmp/wt/$id; out=/tmp/wt/$id-out; tgt=/tmp/wt/$id-target
   [ $cmd = confirm2 ] && out=/tmp/wt/$id-out2
   [ $cmd = confirm3 ] && out=/tmp/wt/$id-out3
+  [ $cmd = confirm4 ] && out=/tmp/wt/$id-out4
   cd $wt || exit 2
   demo=$(python3 -c "import json;print(json.load(open('$out/meta.json'))['demo_cmd'])")
   {
